@@ -191,3 +191,24 @@ theorem ax_ipow_root_same (y : ℝ) (n : ℕ) (hn : 1 ≤ n) (hy : 0 < y ∨ (Od
   · rcases lt_or_gt_of_ne hne with h | h
     · exact (ax_root_neg_odd y n h ho).2
     · exact (ax_root_pos y n h hn).2.2
+
+/-! ### big operators over lists of arbitrary length (G-mode) -/
+theorem ax_bigsum_zero (f : ℕ → ℝ) : (Finset.range 0).sum f = 0 := Finset.sum_range_zero f
+theorem ax_bigsum_succ (f : ℕ → ℝ) (n : ℕ) : (Finset.range (n + 1)).sum f = (Finset.range n).sum f + f n :=
+  Finset.sum_range_succ f n
+theorem ax_bigprod_zero_len (f : ℕ → ℝ) : (Finset.range 0).prod f = 1 := Finset.prod_range_zero f
+theorem ax_bigprod_succ (f : ℕ → ℝ) (n : ℕ) : (Finset.range (n + 1)).prod f = (Finset.range n).prod f * f n :=
+  Finset.prod_range_succ f n
+theorem ax_bigsum_ext (f g : ℕ → ℝ) (n : ℕ) (h : ∀ i, i < n → f i = g i) :
+    (Finset.range n).sum f = (Finset.range n).sum g :=
+  Finset.sum_congr rfl (fun i hi => h i (Finset.mem_range.mp hi))
+theorem ax_bigprod_ext (f g : ℕ → ℝ) (n : ℕ) (h : ∀ i, i < n → f i = g i) :
+    (Finset.range n).prod f = (Finset.range n).prod g :=
+  Finset.prod_congr rfl (fun i hi => h i (Finset.mem_range.mp hi))
+theorem ax_bigprod_has_zero (f : ℕ → ℝ) (n j : ℕ) (hj : j < n) (h : f j = 0) : (Finset.range n).prod f = 0 :=
+  Finset.prod_eq_zero (Finset.mem_range.mpr hj) h
+/-- adequacy of the dV row of an n-ary sum -/
+theorem d_bigsum (n : ℕ) (F : ℕ → ℝ → ℝ) (F' : ℕ → ℝ) (x : ℝ)
+    (h : ∀ i ∈ Finset.range n, HasDerivAt (F i) (F' i) x) :
+    HasDerivAt (fun y => ∑ i ∈ Finset.range n, F i y) (∑ i ∈ Finset.range n, F' i) x :=
+  HasDerivAt.fun_sum h
